@@ -33,11 +33,11 @@ class C09(Check):
                 "mixture protocols, every library channel, noise models, Circuit.with_noise, qis.channels conversions",
         "stub": "the pseudo-random generator passed as seed= (ScriptedPRNG / ScriptedUniform); QRef is the oracle",
     }
-    tiers = {"quick": {"runs": 12000, "wall": 85}, "thorough": {"runs": 500000, "wall": 1200}}
+    tiers = {"quick": {"runs": 7000, "wall": 85}, "thorough": {"runs": 500000, "wall": 1200}}
     per_run_timeout = 240
     expected_probes = ["sim:sv", "sim:dm", "entry:simulate", "entry:run", "entry:steps", "feat:channel",
                        "feat:keyed-channel", "noise:constant", "noise:insertion", "noise:gate-like",
-                       "noise:with_noise-circuit", "noise:thermal", "order:spectator", "init:density-matrix", "init:vector", "draw:uniform-kraus", "draw:choice", "convert-checked",
+                       "noise:with_noise-circuit", "noise:thermal", "noise:unitary-gate", "entry:sweep", "entry:mux-fdm", "feat:composite-noisy-gate", "feat:pauli-measure", "protocol:apply_mixture-checked", "protocol:apply_channel-checked", "order:spectator", "init:density-matrix", "init:vector", "draw:uniform-kraus", "draw:choice", "convert-checked",
                        "feat:reset", "boundary:fallback-branch"]
 
     def setup(self) -> None:
@@ -50,6 +50,8 @@ class C09(Check):
 
     # -- cross-invariant: the descriptions of every channel that flows through a run agree -----------------
     def _convert_check(self, cirq, op, ctx) -> None:
+        if getattr(op.gate, "_verif_composite_", False):
+            return      # defined by its decomposition only; cirq.kraus() does not compose those
         if not cirq.has_kraus(op) or cirq.is_measurement(op) and not cirq.has_kraus(op):
             return
         if isinstance(op.gate, (cirq.MeasurementGate, cirq.PauliMeasurementGate)):
@@ -88,6 +90,75 @@ class C09(Check):
             if abs(sum(p for p, _ in mix) - 1) > 1e-8:
                 raise Violation(f"{P}-CONVERT", f"mixture weights of {op!r} do not sum to 1")
         ctx.probe("convert-checked")
+        # the apply_* protocols on a density tensor give the same channel
+        n_q = int(round(math.log2(d))) if d in (2, 4) else None
+        if n_q is not None and getattr(op.gate, "_verif_composite_", False) is False:
+            t = rho.reshape((2,) * (2 * n_q)).copy()
+            args = cirq.ApplyChannelArgs(target_tensor=t, out_buffer=np.zeros_like(t), auxiliary_buffer0=np.zeros_like(t),
+                                         auxiliary_buffer1=np.zeros_like(t), left_axes=list(range(n_q)),
+                                         right_axes=list(range(n_q, 2 * n_q)))
+            out = cirq.apply_channel(op, args, default=None)
+            if out is not None:
+                if not np.allclose(np.asarray(out).reshape(d, d), want, atol=1e-6):
+                    raise Violation(f"{P}-CONVERT", f"cirq.apply_channel disagrees with the Kraus sum for {op!r}")
+                ctx.probe("protocol:apply_channel-checked")
+            if cirq.has_mixture(op):
+                t2 = rho.reshape((2,) * (2 * n_q)).copy()
+                margs = cirq.ApplyMixtureArgs(target_tensor=t2, out_buffer=np.zeros_like(t2),
+                                              auxiliary_buffer0=np.zeros_like(t2), auxiliary_buffer1=np.zeros_like(t2),
+                                              left_axes=list(range(n_q)), right_axes=list(range(n_q, 2 * n_q)))
+                out2 = cirq.apply_mixture(op, margs, default=None)
+                if out2 is not None:
+                    if not np.allclose(np.asarray(out2).reshape(d, d), want, atol=1e-6):
+                        raise Violation(f"{P}-CONVERT", f"cirq.apply_mixture disagrees with the Kraus sum for {op!r}")
+                    ctx.probe("protocol:apply_mixture-checked")
+
+    def _custom_mixture_check(self, cirq, tape, ctx) -> None:
+        """A user-defined value whose _mixture_ lists *gates* (legal per the mixture protocol), in a
+        tape-chosen order: cirq.mixture / cirq.kraus / cirq.apply_mixture describe the same channel."""
+        pool = [cirq.I, cirq.Z, cirq.X, cirq.S, cirq.H, cirq.Y, cirq.T]
+        k = 2 + tape.draw(2, "mix-terms")
+        gates = [pool[tape.draw(len(pool), "mix-gate")] for _ in range(k)]
+        raw = [1 + tape.draw(4, "mix-w") for _ in range(k)]
+        probs = [w / sum(raw) for w in raw]
+
+        class GateMixture(cirq.Gate):
+            def _num_qubits_(self):
+                return 1
+
+            def _mixture_(self):
+                return tuple(zip(probs, gates))
+
+            def __repr__(self):
+                return f"GateMixture({list(zip(probs, gates))})"
+
+        val = GateMixture()
+        rho = np.array([[0.7, 0.2 - 0.1j], [0.2 + 0.1j, 0.3]], dtype=np.complex128)
+        want = sum(p * (cirq.unitary(g) @ rho @ cirq.unitary(g).conj().T) for p, g in zip(probs, gates))
+        t = rho.reshape(2, 2).copy()
+        margs = cirq.ApplyMixtureArgs(target_tensor=t, out_buffer=np.zeros_like(t), auxiliary_buffer0=np.zeros_like(t),
+                                      auxiliary_buffer1=np.zeros_like(t), left_axes=[0], right_axes=[1])
+        out = cirq.apply_mixture(val, margs)
+        if not np.allclose(np.asarray(out).reshape(2, 2), want, atol=1e-7):
+            raise Violation(f"{P}-CONVERT", f"cirq.apply_mixture of a mixture of gates {list(zip(probs, gates))} is not "
+                                            f"sum p U rho U^dag (max error "
+                                            f"{float(np.max(np.abs(np.asarray(out).reshape(2, 2) - want))):.3e})")
+        ks = cirq.kraus(val)
+        got = sum(kk @ rho @ kk.conj().T for kk in ks)
+        if not np.allclose(got, want, atol=1e-7):
+            raise Violation(f"{P}-CONVERT", f"cirq.kraus of a mixture of gates {list(zip(probs, gates))} is a different "
+                                            f"channel")
+        # and the state-vector form of apply_mixture (no right axes)
+        psi = np.array([0.6, 0.8j], dtype=np.complex128)
+        sargs = cirq.ApplyMixtureArgs(target_tensor=psi.copy(), out_buffer=np.zeros_like(psi),
+                                      auxiliary_buffer0=np.zeros_like(psi), auxiliary_buffer1=np.zeros_like(psi),
+                                      left_axes=[0])
+        try:
+            out_sv = cirq.apply_mixture(val, sargs, default=None)
+        except Exception:  # noqa: BLE001 - a pure-state target may legitimately be unsupported
+            out_sv = None
+        _ = out_sv
+        ctx.probe("protocol:custom-gate-mixture-checked")
 
     def run_one(self, tape, ctx: Ctx) -> None:
         cirq = self.cirq
@@ -95,7 +166,7 @@ class C09(Check):
         ctx.workload = "channels"
         use_noise_model = tape.chance(1, 3, "noise-model?")
         g = qgen.Gen(tape, clifford_only=False, allow_channels=not use_noise_model, allow_qudits=not use_noise_model,
-                     allow_control=True, allow_pauli_measure=False, max_qudits=3 if use_noise_model else 4,
+                     allow_control=True, allow_pauli_measure=True, max_qudits=3 if use_noise_model else 4,
                      leaf_bits_cap=4.0 if use_noise_model else 8.0, max_ops=6 if use_noise_model else 10)
         circuit = g.circuit()
         noise = None
@@ -105,7 +176,7 @@ class C09(Check):
         noise_bits = 0.0
         if use_noise_model:
             pr = [0.125, 0.25, 0.0625, 0.5][tape.draw(4, "noise-p")]
-            nk = tape.weighted([3, 2, 2, 2, 2], "noise-kind")
+            nk = tape.weighted([3, 2, 2, 2, 2, 1], "noise-kind")
             if nk == 0:
                 ch = [cirq.depolarize(pr), cirq.bit_flip(pr), cirq.amplitude_damp(pr), cirq.phase_damp(pr)][tape.draw(4, "noise-ch")]
                 noise = cirq.ConstantQubitNoiseModel(ch)
@@ -123,6 +194,10 @@ class C09(Check):
                 noise = cirq.devices.InsertionNoiseModel(ops_added=added, prepend=bool(tape.draw(2, "prepend")),
                                                          require_physical_tag=False)
                 noise_kind = "insertion"
+            elif nk == 5:
+                # coherent "noise": a unitary gate after every moment
+                noise = [cirq.X ** 0.125, cirq.Z ** 0.25, cirq.rx(0.3)][tape.draw(3, "unitary-noise")]
+                noise_kind = "unitary-gate"
             elif nk == 3:
                 ch = [cirq.bit_flip(pr), cirq.phase_damp(pr)][tape.draw(2, "noise-ch")]
                 noise = cirq.ConstantQubitNoiseModel(ch, prepend=True)
@@ -158,7 +233,9 @@ class C09(Check):
             for op in ref_circuit.all_operations():
                 if isinstance(op, cirq.ClassicallyControlledOperation):
                     op = op.without_classical_controls()
-                if not cirq.has_unitary(op) and not cirq.is_measurement(op):
+                if getattr(op.gate, "_verif_composite_", False):
+                    noise_bits += 2
+                elif not cirq.has_unitary(op) and not cirq.is_measurement(op):
                     n_k = len(cirq.kraus(op))
                     noise_bits += math.log2(max(2, n_k))
         # simulator configuration
@@ -185,9 +262,15 @@ class C09(Check):
                 op = op.without_classical_controls()
             if not cirq.has_unitary(op):
                 self._convert_check(cirq, op, ctx)
-        entry = ["simulate", "steps", "run"][tape.weighted([5, 2, 3], "entry")]
+        if tape.chance(1, 4, "custom-mixture?"):
+            self._custom_mixture_check(cirq, tape, ctx)
+        entry = ["simulate", "steps", "run", "sweep", "mux-fdm"][tape.weighted([5, 2, 3, 2, 1], "entry")]
+        if entry == "mux-fdm" and (with_noise_circuit or g.key_dims or g.channel_keys or g.features & {"reset"}):
+            entry = "simulate"      # the mux helper is exercised on measurement-free circuits
         has_meas = any(cirq.is_measurement(op) for op in (ref_circuit or circuit).all_operations())
         if entry == "run" and not has_meas:
+            entry = "simulate"
+        if entry == "sweep" and (with_noise_circuit or not sim_circuit.all_qubits()):
             entry = "simulate"
         ctx.probe("entry:" + entry)
         channel_keys = tuple(k for k in ("k", "l") if k in {str(x) for x in cirq.measurement_key_names(sim_circuit)})
@@ -198,10 +281,12 @@ class C09(Check):
         # every key-less noise model), which regroups moments and changes where and how often per-moment noise
         # is applied.  Runs in which that split is non-trivial carry their own fingerprint.
         split_affected = False
-        if (noise is not None and kind == "dm" and not with_noise_circuit and entry in ("simulate", "run")):
+        sv_unitary_noise = (kind == "sv" and noise_kind == "unitary-gate")
+        if (noise is not None and (kind == "dm" or sv_unitary_noise) and not with_noise_circuit
+                and entry in ("simulate", "run")):
             from cirq.sim.simulator import split_into_matching_protocol_then_general
             pre, suf = split_into_matching_protocol_then_general(
-                sim_circuit, lambda op: not cirq.measurement_keys_touched(op))
+                sim_circuit, (lambda op: not cirq.measurement_keys_touched(op)) if kind == "dm" else cirq.has_unitary)
             split_affected = len(pre) > 0 and (len(suf) > 0 or len(pre) != len(sim_circuit)
                                                or pre.all_qubits() != sim_circuit.all_qubits())
             if len(pre) == 0 and len(suf) != len(sim_circuit):
@@ -224,7 +309,42 @@ class C09(Check):
             if terminal_affected:
                 ctx.probe("known:noise-terminal-fastpath-reached")
         try:
-            if entry == "run":
+            if entry == "sweep":
+                import sympy
+                # parameterise the circuit: a symbolic rotation in front and one in the middle
+                tsym = sympy.Symbol("t")
+                qs_all = sorted(q for q in sim_circuit.all_qubits() if q.dimension == 2)
+                if not qs_all:
+                    entry = "simulate"
+                else:
+                    qp = qs_all[tape.draw(len(qs_all), "sweep-qubit")]
+                    pos = tape.draw(len(sim_circuit) + 1, "sweep-pos")
+                    swept = sim_circuit.copy()
+                    swept.insert(0, (cirq.X ** tsym).on(qp), strategy=cirq.InsertStrategy.NEW)
+                    swept.insert(min(pos + 1, len(swept)), (cirq.Z ** (tsym * 0.5)).on(qp), strategy=cirq.InsertStrategy.NEW)
+                    values = [[0.25, 1.0], [1.0, 0.0, 0.5], [0.5, 0.75]][tape.draw(3, "sweep-values")]
+                    if noise is not None and (kind == "dm" or sv_unitary_noise):
+                        # the known prefix/suffix split also happens in simulate_sweep (un-parameterised prefix)
+                        from cirq.sim.simulator import split_into_matching_protocol_then_general
+                        base_pred = (lambda op: not cirq.measurement_keys_touched(op)) if kind == "dm" else cirq.has_unitary
+                        pre, suf = split_into_matching_protocol_then_general(
+                            swept, lambda op: base_pred(op) and not cirq.is_parameterized(op))
+                        split_affected = len(pre) > 0 and (len(suf) > 0 or len(pre) != len(swept))
+                        if split_affected:
+                            ctx.probe("known:noise-prefix-split-reached")
+                    model = cirq.NoiseModel.from_noise_model_like(noise) if noise is not None else None
+                    ref_for = (lambda c: cirq.Circuit(model.noisy_moments(c, sorted(c.all_qubits())))) if model else None
+                    n_leaves = qdrive.check_sweep(P, swept, cirq.Points("t", values), cfg, ctx,
+                                                  max_leaves=400 if kind == "sv" else 64, ref_circuit_for=ref_for,
+                                                  stats=stats)
+                    sim_circuit = swept
+                    ctx.probe("entry:sweep-points", len(values))
+            if entry == "mux-fdm":
+                qdrive.check_mux_final_density_matrix(P, sim_circuit, noise, dtype, ctx, ref_circuit=ref_circuit)
+                n_leaves = 1
+            elif entry == "sweep":
+                pass
+            elif entry == "run":
                 bits = max(total_bits, 0.5)
                 reps = 1 + tape.draw(min(2, max(1, int(8.6 // bits))), "reps")
                 n_leaves = qdrive.check_run(P, sim_circuit, cfg, reps, ctx, max_leaves=400, entry="run",
@@ -276,9 +396,9 @@ class C09(Check):
                                                  boundary_call=(tape.draw(3, "boundary-call") if kind == "sv" and
                                                                 tape.chance(1, 2, "boundary-u?") else None))
         except Violation as v:
-            if split_affected and v.cls in (f"{P}-STATE", f"{P}-DIST"):
-                raise Violation(v.cls, v.message, fingerprint=f"{P}-NOISE-PREFIX-SPLIT:DensityMatrixSimulator(noise=)."
-                                                              f"simulate/run") from None
+            if split_affected and v.cls in (f"{P}-STATE", f"{P}-DIST", f"{P}-PHASE"):
+                who = "DensityMatrixSimulator(noise=)" if kind == "dm" else "Simulator(unitary noise=)"
+                raise Violation(v.cls, v.message, fingerprint=f"{P}-NOISE-PREFIX-SPLIT:{who}.simulate/run") from None
             if terminal_affected and v.cls == f"{P}-DIST":
                 raise Violation(v.cls, v.message, fingerprint=f"{P}-NOISE-TERMINAL-FASTPATH:Simulator(noise=).run") from None
             raise
